@@ -10,6 +10,7 @@ import SugarModel.Generated.CommandTable
 import SugarModel.Driver.AclLines
 import SugarModel.Driver.PersistLines
 import SugarModel.Driver.SchedLines
+import SugarModel.Driver.PubSubLines
 open Sugar Sugar.Driver
 
 def showVal (v : Val) : String := reprStr v
@@ -259,6 +260,12 @@ partial def loop (h : IO.FS.Stream) (out : IO.FS.Stream) : IO Unit := do
     loop h out
   else if line.startsWith "X " then
     out.putStrLn (verdictX line)
+    loop h out
+  else if line.startsWith "P " then
+    out.putStrLn (pVerdict ((line.splitOn " ").filter (· ≠ "")))
+    loop h out
+  else if line.startsWith "G " then
+    out.putStrLn (gVerdict ((line.splitOn " ").filter (· ≠ "")))
     loop h out
   else
   if line.startsWith "U " || line.startsWith "H " then
